@@ -25,6 +25,7 @@ PROP = {
                + [{"name": f, "quick": QUICK, "thorough": THOROUGH, "maxlen": 400} for f in FUNCS]
                + [{"name": "all", "quick": 0, "thorough": 2000000, "maxlen": 400},
                   {"name": "via_header", "quick": 400000, "thorough": 4000000, "maxlen": 96},
+                  {"name": "needle_scan", "quick": 300000, "thorough": 3000000, "maxlen": 64},
                   {"name": "span_soak", "quick": 400, "thorough": 5000, "maxlen": 64},
                   {"name": "all_long", "quick": 600000, "thorough": 6000000, "maxlen": 400}],
     "uchar": ["all_long"],
